@@ -110,6 +110,10 @@ enum Edit {
     Extend(u16),
     FlipBit(u16),
     LastByte(u8),
+    /// lengthen (true) or shorten by a structural amount: a section of the format (n/8 .. 2n bytes,
+    /// the f/g/F sections of a secret key, the salt, the whole body), filled with zeros, 0xFF, noise
+    /// or a copy of the string's own bytes
+    Resize(bool, u8, u8),
 }
 
 impl Sub for StrictDecode {
@@ -132,6 +136,7 @@ impl Sub for StrictDecode {
             1 => (1u16..4).prop_map(Edit::Extend),
             2 => any::<u16>().prop_map(Edit::FlipBit),
             1 => any::<u8>().prop_map(Edit::LastByte),
+            3 => (any::<bool>(), any::<u8>(), any::<u8>()).prop_map(|(grow, which, fill)| Edit::Resize(grow, which, fill)),
         ];
         let structured = (kind, n, any::<u64>(), edit).prop_map(|(kind, n, seed, edit)| {
             let p = params(n);
@@ -175,6 +180,28 @@ impl Sub for StrictDecode {
                 Edit::LastByte(v) => {
                     let l = b.len() - 1;
                     b[l] = v;
+                }
+                Edit::Resize(grow, which, fill) => {
+                    let amounts = [n / 8, n / 4, n / 2, n, 2 * n, n * p.fg_bits / 8, 2 * n * p.fg_bits / 8, 14 * n / 8, 40, 41, b.len() - 1, b.len(), 8, 16, 5, 7];
+                    let k = amounts[which as usize % amounts.len()].max(1);
+                    if grow {
+                        let mut s = seed ^ 0xE47;
+                        let extra: Vec<u8> = (0..k)
+                            .map(|j| match fill % 4 {
+                                0 => 0u8,
+                                1 => 0xFF,
+                                2 => {
+                                    s = crate::util::mix(s);
+                                    s as u8
+                                }
+                                _ => b[1 + j % (b.len() - 1)],
+                            })
+                            .collect();
+                        b.extend(extra);
+                    } else {
+                        let l = b.len().saturating_sub(k).max(1);
+                        b.truncate(l);
+                    }
                 }
             }
             DecodeCase { kind: kind.to_string(), n: dec_n, bytes: Hex(b) }
